@@ -17,7 +17,8 @@
 (*                                                                         *)
 (* A file is a sequence of abstract lines [k, s, t]:                       *)
 (*   k = "sec" (s = section name), "row" (t = whitespace separated tokens, *)
-(*   s = trailing comment), "ifdef"/"ifndef" (s = tag), "endif".           *)
+(*   s = trailing comment), "ifdef"/"ifndef" (s = tag), "endif", "comment" *)
+(*   (a line that is a comment only, t = its words; the header of a file). *)
 (*                                                                         *)
 (* P-layer : Write(m) (the line list the writer must produce), Read(lines) *)
 (*           (the reader as a fold), Same (equality of molecules modulo    *)
@@ -161,7 +162,8 @@ StepInteraction(st, ln) ==
     ELSE [st EXCEPT !.inter = Append(@, [sec |-> st.sec, atoms |-> RowAtoms(st.sec, ln.t), par |-> RowPars(st.sec, ln.t),
                                             gk |-> st.gk, gtag |-> st.gtag])]
 Step(st, ln) ==
-    CASE ln.k = "sec" -> StepSec(st, ln)
+    CASE ln.k = "comment" -> st                              \* a comment line says nothing, wherever it stands and however long it is
+      [] ln.k = "sec" -> StepSec(st, ln)
       [] ln.k \in {"ifdef", "ifndef", "endif"} -> StepPragma(st, ln)
       [] ln.k = "row" /\ st.sec = "moleculetype" -> StepMoleculetype(st, ln)
       [] ln.k = "row" /\ st.sec = "atoms" -> StepAtom(st, ln)
